@@ -3,9 +3,12 @@ import os
 import re
 import framework as fw
 import c20_opts   # round 6: to_nsq main loop end-to-end leg + option surface (sub-builder `relay`)
+import c20_redirect   # audit round 7, C3 (builder tools2): nsq_to_http and redirects, real binary
+import c20_audit7  # audit round 7 (sub-builder c20b): n2n histories / give-up, to_nsq refusal, GET endpoint, filter oracle
 
-TIE = ["Nsq.Tie.ToolsSplit", "Nsq.Tie.ToolsRelay"] + c20_opts.TIE
-PROPS = ["Nsq.Props.C20", "Nsq.Props.C20GiveUp"] + c20_opts.PROPS
+TIE = ["Nsq.Tie.ToolsSplit", "Nsq.Tie.ToolsRelay"] + c20_opts.TIE + c20_redirect.TIE
+PROPS = ["Nsq.Props.C20", "Nsq.Props.C20GiveUp"] + c20_opts.PROPS + c20_redirect.PROPS
+TIE, PROPS = TIE + c20_audit7.TIE, PROPS + c20_audit7.PROPS   # audit7-b
 CORPUS = os.path.join(fw.ROOT, "corpus", "C20")
 F5_KEY = "to_nsq-unterminated-final-record"
 
@@ -103,6 +106,7 @@ def run_relay(ctx, binp, test, name, corr_broken, n):
                                                "oracle": [l for l in log.splitlines() if l.startswith("ORACLE-DONE")]}
     for o, i in list(zip(ops, impl))[:2]:
         ctx.add_sample({"op": o[:160], "impl": i[:160]})
+    c20_audit7.filter_oracle(ctx, log, name, corr_broken)   # audit7-b: FILTER lines (n2n only), expectation from the input body
     for l in log.splitlines():
         if l.startswith("ORACLE-FAIL"):
             what = l[len("ORACLE-FAIL "):]
@@ -176,9 +180,20 @@ def run(ctx):
                 "relays: one case = one message through the real HandleMessage (+ responder) against scripted "
                 "destinations (HTTP status 200..599, stall, refused connection; nsqd OK / E_PUB_FAILED / dropped "
                 "connection / refused connection) in every mode, GET and POST, sampling 1.0/0.5/0.0, JSON filters")
+    # committed replay files of the known findings that are not to_nsq `.ops` streams: exported to the harnesses
+    # (vfKnownLines in harness/common); a file that no harness reads is a broken tie (audit round 7, C36)
+    known_txt = [k for k in ctx.known_findings().get("fixed", []) + ctx.known_findings().get("open", [])
+                 if k.get("property") == "C20" and k.get("replay") and not k["replay"].endswith(".ops")]
+    seen_dir = os.path.join(ctx.work, "known_seen")
+    os.environ["VF_KNOWN_SEEN"] = seen_dir
+    for k in known_txt:
+        os.environ["VF_KNOWN_" + re.sub(r"[^A-Za-z0-9]", "_", k["key"]).upper()] = os.path.join(fw.ROOT, k["replay"])
     gen_ok, _ = ctx.gen("e8_relay")
     ctx.gen(c20_opts.SPEC)
     c20_opts.declare(ctx)
+    ctx.gen(c20_redirect.SPEC)
+    c20_redirect.declare(ctx)
+    c20_audit7.declare(ctx)   # audit7-b
     built = []
     for mod in TIE + PROPS:
         ok, log = ctx.lean_build([mod])
@@ -193,7 +208,7 @@ def run(ctx):
     if not ctx.build_driver("e8"):
         corr_broken.append("driver drv_e8 does not build")
     # ---- to_nsq
-    b_tonsq = ctx.go_test_binary("apps/to_nsq", ["e8/tonsq_test.go", "e8/tonsq_e2e_test.go", "e8/stub_nsqd.go"], "e8tonsq", pkgname="main")
+    b_tonsq = ctx.go_test_binary("apps/to_nsq", ["e8/tonsq_test.go", "e8/tonsq_e2e_test.go", "e8/stub_nsqd.go"] + c20_audit7.TONSQ_FILES, "e8tonsq", pkgname="main")
     if not b_tonsq:
         ctx.broken_ties.append("harness e8/tonsq_test.go does not compile against the current tree")
     elif ctx.replay_in:
@@ -206,7 +221,7 @@ def run(ctx):
     else:
         # known findings are replayed, not remembered: fixed ones must pass
         for k in ctx.known_findings().get("fixed", []) + ctx.known_findings().get("open", []):
-            if k.get("property") != "C20" or not k.get("replay"):
+            if k.get("property") != "C20" or not k.get("replay") or not k["replay"].endswith(".ops"):
                 continue
             res, log = run_tonsq(ctx, b_tonsq, "known", os.path.join(fw.ROOT, k["replay"]))
             if res is None:
@@ -232,23 +247,32 @@ def run(ctx):
             ctx.corr["to_nsq_inputs"] = sizes
             ctx.add_sample({"op": res[0][0], "impl": res[1][0]})
         c20_opts.tonsq_e2e(ctx, b_tonsq, corr_broken)
+        c20_audit7.tonsq_refuse(ctx, b_tonsq, corr_broken)   # audit7-b: a destination refuses a record (fail-stop)
     # ---- relays
     if not ctx.replay_in:
-        b = ctx.go_test_binary("apps/nsq_to_nsq", ["e8/n2n_test.go", "e8/n2n_opts_test.go", "e8/stub_nsqd.go"], "e8n2n", pkgname="main")
+        b = ctx.go_test_binary("apps/nsq_to_nsq", ["e8/n2n_test.go", "e8/n2n_opts_test.go", "e8/stub_nsqd.go"] + c20_audit7.N2N_FILES, "e8n2n", pkgname="main")
         if not b:
             ctx.broken_ties.append("harness e8/n2n_test.go does not compile against the current tree")
         else:
             run_relay(ctx, b, "TestVerifN2NCorr", "n2n", corr_broken, ctx.budget(720, 7200))
             c20_opts.opts_leg(ctx, b, "TestVerifN2NOpts", "n2n_opts", corr_broken)
-        b = ctx.go_test_binary("apps/nsq_to_http", ["e8/n2h_test.go", "e8/n2h_opts_test.go", "e8/stub_nsqd.go"], "e8n2h", pkgname="main")
+            c20_audit7.n2n_hist(ctx, b, corr_broken)     # audit7-b: several outstanding transactions, out of order
+            c20_audit7.giveup_n2n(ctx, b, corr_broken)   # audit7-b: known finding replayed on nsq_to_nsq too
+        b = ctx.go_test_binary("apps/nsq_to_http", ["e8/n2h_test.go", "e8/n2h_opts_test.go", "e8/n2h_redirect_test.go", "e8/stub_nsqd.go"], "e8n2h", pkgname="main")
         if not b:
             ctx.broken_ties.append("harness e8/n2h_test.go does not compile against the current tree")
         else:
             run_relay(ctx, b, "TestVerifN2HCorr", "n2h", corr_broken, ctx.budget(1800, 18000))
             n2h_tool = c20_opts.build_tool(ctx, "apps/nsq_to_http", "nsq_to_http_real")
             c20_opts.opts_leg(ctx, b, "TestVerifN2HOpts", "n2h_opts", corr_broken, env={"VF_E8_N2H_BIN": n2h_tool or ""})
+            c20_redirect.leg(ctx, b, n2h_tool, corr_broken)   # audit round 7, C3
         if b:
             giveup(ctx, b, corr_broken)
+        c20_audit7.n2h_get(ctx, corr_broken)   # audit7-b: GET request target (own harness binary)
+    if not ctx.replay_in:
+        for k in known_txt:
+            if not os.path.exists(os.path.join(seen_dir, k["key"])):
+                corr_broken.append("replay file %s of known finding %s is read by no harness" % (k["replay"], k["key"]))
     if (ctx.broken_ties or corr_broken) and not ctx.violations:
         ctx.broken_without_input(ctx.broken_ties + corr_broken,
                                  "search: %d generated inputs / messages through the real tools found no property failure"
